@@ -293,6 +293,75 @@ def describe(c):
     return {k: v for k, v in c.items() if k not in ("seed",)}
 
 
+# ---------------------------------------------------------------------- structured data: every entry point completes
+
+
+def gen_structured(rng, nmax):
+    det = rng.choice(["pelt", "mw", "sbs", "cbs", "cbs", "capa", "mvcapa", "stat"])
+    n = rng.randint(60, max(60, 8 * nmax))
+    c = {"det": det, "n": n, "p": 1 if det == "stat" else rng.randint(1, 2), "seed": rng.randint(0, 10**6), "cost": rng.choice(["default", "l2"]),
+         "shape": rng.choice(["nested", "nested", "stairs", "spikes", "blocks"]), "m": rng.randint(2, 4), "scale": rng.choice([0.5, 1.0, 2.0]),
+         "level": 0.01, "b": rng.randint(3, 8), "g": rng.choice([1.3, 1.5, 2.0]), "noise": rng.choice([0.0, 0.05, 0.5]),
+         "frame": rng.random() < 0.5, "nan": False, "kind": "structured"}
+    c["mdi"] = 1
+    c["mx"] = rng.choice([n // 2, n // 3, 40])
+    c["mx"] = max(c["mx"], 2 * c["m"])
+    c["M"], c["cs"], c["ps"], c["lo"], c["hi"] = rng.choice([n, 30]), c["scale"], c["scale"], -1.0, 1.0
+    return c
+
+
+def structured_data(c):
+    g = np.random.default_rng(c["seed"])
+    n, p = c["n"], c["p"]
+    x = np.zeros(n)
+    a, b = n // 4, 3 * n // 4
+    if c["shape"] == "nested":  # a long anomaly that is itself inhomogeneous: a plateau with a short, higher stretch inside it
+        x[a:b] = 4.0
+        k = (a + b) // 2
+        x[k - 4:k + 4] = 10.0
+    elif c["shape"] == "stairs":
+        for i, k in enumerate(range(0, n, max(5, n // 7))):
+            x[k:] = 3.0 * (i % 3)
+    elif c["shape"] == "spikes":
+        x[g.choice(n, size=5, replace=False)] = 12.0
+    else:
+        x[a:a + 7] = 6.0
+        x[b:b + 7] = -6.0
+    X = np.column_stack([x * (1.0 if j == 0 else 0.5) for j in range(p)]) + c["noise"] * g.normal(size=(n, p))
+    if c["frame"]:
+        import pandas as pd
+
+        X = pd.DataFrame(X)
+    return X
+
+
+def impl_structured(c):
+    X = structured_data(c)
+    err, det = stage(lambda: build(c), "ctor")
+    if err:
+        return {"outcome": err}
+    out = {}
+    for name, fn in (("fit", lambda: det.fit(X)), ("predict", lambda: det.predict(X)), ("fit_predict", lambda: det.fit_predict(X))):
+        err, y = stage(fn, name)
+        if err:
+            return {"outcome": err}
+        if name != "fit":
+            out[name] = frame_info(y)
+    return {"outcome": "ok", **out}
+
+
+def oracle_structured(c, r):
+    if r["outcome"] != "ok":
+        return (f"{c['det']} with a documented-valid configuration (m={c['m']}, max_interval_length={c['mx']}, scale={c['scale']}) on finite "
+                f"{c['shape']} data of {c['n']} rows does not complete: {r['outcome']}")
+    cc = dict(c, m=c["b"] if c["det"] == "mw" else (1 if c["det"] == "stat" else c["m"]), M=c["M"] if c["det"] in ("capa", "mvcapa") else 10**9)
+    for name in ("predict", "fit_predict"):
+        msg = predicate(cc, r[name])
+        if msg:
+            return f"{c['det']} (m={c['m']}, max_interval_length={c['mx']}, scale={c['scale']}) on {c['shape']} data of {c['n']} rows: {name} yields malformed output: {msg}"
+    return None
+
+
 def run(chk: core.Check):
     chk.lean()
     cs = cases(chk.tier)
@@ -317,6 +386,14 @@ def run(chk: core.Check):
     chk.run_stream("grid", cs, impl, line=line, canon=canon, model_map=lambda c, o: "ok" if o == "ok" else ("err" if o in ("ctor-err", "fit-err") else o),
                    skip=lambda c, r: "cost-cannot-score-such-short-segments-at-setup" if r["outcome"].startswith("setup-") and permitted_extra(c, r["outcome"]) else None,
                    oracle=oracle, site="constructors/fit", nontrivial=lambda c, r: r["outcome"] == "ok", describe=describe)
+    chk.rules.append(
+        "structured: documented-valid interior configurations of the seven detectors on finite data with structure (a long anomaly "
+        "with a short higher stretch inside it, stairs, isolated spikes, two short blocks; noise 0 / 0.05 / 0.5; arrays and frames): "
+        "fit, predict and fit_predict must complete and return well-formed output (the C04 predicate: sorted, disjoint, in range, admissible lengths)")
+    srng = core.rng_for(chk.seed, "C14/structured")
+    chk.run_stream("structured", core.Gen(gen_structured, srng, 16 if chk.tier == "quick" else 40, 240 if chk.tier == "quick" else 2400),
+                   impl_structured, oracle=oracle_structured, site="entry-points", nontrivial=lambda c, r: r["outcome"] == "ok",
+                   per_case_timeout=60)
     return chk.finish()
 
 
@@ -325,6 +402,10 @@ def replay(path):
     case = v["case"]
     if case is None:
         print(json.dumps(v, indent=1)[:4000])
+        return 0
+    if v.get("stream") == "structured":
+        r = impl_structured(case)
+        print("implementation:", r, "\noracle        :", oracle_structured(case, r))
         return 0
     r = impl(case)
     print("implementation:", r, "\nmodel         :", core.run_driver([line(case)])[0], "\noracle        :", oracle(case, r))
